@@ -257,6 +257,172 @@ def log_of(w):
 
 
 # --------------------------------------------------------------------------------------
+# Joint reductions of a sample: over its sampled variables AND particle / batch inputs in ONE reduce call
+# --------------------------------------------------------------------------------------
+
+def lse(a, axes):
+    a = np.asarray(a, dtype=np.float64)
+    if not axes:
+        return a
+    with np.errstate(all="ignore"):
+        mx = np.max(a, axis=axes, keepdims=True)
+        mx = np.where(np.isfinite(mx), mx, 0.0)
+        return np.log(np.sum(np.exp(a - mx), axis=axes)) + np.squeeze(mx, axes)
+
+
+def joint_reductions(ctx, label, smp, base, extras, tm, fail, post=None, gate_max=False, max_subsets=5):
+    """`tm` = log mass of `smp` over `base`, as an array over `extras` = [(integer input, size)…] (already gated
+    against the oracle).  For subsets X of those inputs, smp.reduce(op, base | X) in ONE call must equal the
+    brute-force reduction of `tm` over X (which is also what reducing in two steps gives): logaddexp -> the
+    masses add up (n particles of mass Z have mass n Z), max -> the largest one.
+    `fail(name, problem, expected, got)` reports.  Returns False after a failure."""
+    names = [n for n, _ in extras]
+    subsets = [X for m in range(1, len(names) + 1) for X in itertools.combinations(names, m)]
+    if len(subsets) > max_subsets:
+        keep = [tuple(names)] + [(n,) for n in names[:2]]
+        rest = [X for X in subsets if X not in keep]
+        ctx.rng.shuffle(rest)
+        subsets = (keep + rest)[:max_subsets]
+    for X in subsets:
+        rest_order = [(n, k) for n, k in extras if n not in X]
+        axes = tuple(i for i, n in enumerate(names) if n in X)
+        for op, opname, brute in ((ops.logaddexp, "logaddexp", lse(tm, axes)),
+                                  (ops.max, "max", np.max(tm, axis=axes))):
+            try:
+                with np.errstate(all="ignore"):
+                    r = smp.reduce(op, frozenset(base) | frozenset(X))
+                    if post is not None:
+                        r = post(r)
+                    t = table(r, rest_order)
+            except DECLINE + (KeyError,) as e:
+                ctx.count(f"joint:{label}:{opname}-declined:{type(e).__name__}")
+                continue
+            if t is None:
+                ctx.count(f"joint:{label}:{opname}-lazy")
+                continue
+            with np.errstate(all="ignore"):
+                ok = t.shape == np.shape(brute) and np.allclose(np.exp(t), np.exp(brute), rtol=1e-7, atol=1e-300)
+            if ok:
+                ctx.count(f"joint:{label}:{opname}-ok")
+                continue
+            if opname == "max" and not gate_max:
+                ctx.count(f"joint:{label}:max-differs")
+                continue
+            fail(f"C14.joint-reduce-{opname}",
+                 f"{label}: sample.reduce({opname}, {sorted(base)} + {list(X)}) in one call differs from reducing the "
+                 f"per-slice masses over {list(X)} (n particles of mass Z must have total mass n Z)",
+                 str(np.asarray(brute).tolist()), str(t.tolist()))
+            return False
+    return True
+
+
+def delta_joint_case(ctx):
+    """Direct constructions: a Delta binding 2-3 integer variables whose points share batch inputs (a particle
+    input `p`, maybe `b`), unit mass; reduced over all its names AND a subset of the batch inputs in one call."""
+    rng = ctx.rng
+    k = rng.choice([2, 2, 3])
+    names = ["x", "y", "z"][:k]
+    sizes = {n: rng.choice([1, 2, 3]) for n in names}
+    bsz = {"p": rng.choice([2, 3, 4])}
+    if rng.random() < 0.5:
+        bsz["b"] = rng.choice([2, 3])
+    bnames = list(bsz)
+    pb = {}
+    for idx, n in enumerate(names):
+        pb[n] = [b for b in bnames if (b == "p" and idx < 2) or rng.random() < 0.6]
+    pdata = {n: np.array([rng.randrange(sizes[n]) for _ in range(int(np.prod([bsz[b] for b in pb[n]])) if pb[n] else 1)]
+                         ).reshape([bsz[b] for b in pb[n]]) for n in names}
+    f_b = [b for b in bnames if rng.random() < 0.5]
+    f_inputs = [(n, sizes[n]) for n in names] + [(b, bsz[b]) for b in f_b]
+    rng.shuffle(f_inputs)
+    lin = np.array([rng.choice([0.0, 0.25, 0.5, 1.0, 2.0, 3.0]) for _ in range(int(np.prod([v for _, v in f_inputs])))]
+                   ).reshape([v for _, v in f_inputs])
+    fdata = log_of(lin)
+    build = rng.choice(["joint", "sum"])
+    wit = dict(names=names, sizes=sizes, bsz=bsz, pb=pb, pdata={n: v.tolist() for n, v in pdata.items()},
+               f_inputs=f_inputs, lin=lin.tolist(), build=build)
+    ctx.count(f"delta-joint:k={k}:batch={len(bnames)}")
+    py = DELTA_JOINT_PY.format(wit=wit)
+    try:
+        pts = {n: Tensor(pdata[n], OrderedDict((b, Bint[bsz[b]]) for b in pb[n]), sizes[n]) for n in names}
+        if build == "joint":
+            d = Delta(tuple((n, (pts[n], Number(0.0))) for n in names))
+        else:
+            d = Delta(names[0], pts[names[0]])
+            for n in names[1:]:
+                d = d + Delta(n, pts[n])
+        f = Tensor(fdata, OrderedDict((n, Bint[v]) for n, v in f_inputs))
+    except DECLINE as e:
+        ctx.count(f"delta-joint:build-declined:{type(e).__name__}")
+        return
+    extras = [(b, bsz[b]) for b in bnames]
+    # per batch element: mass of the Delta is 1 (log 0); (Delta + f) reduced over the names is f at the point
+    tm_d = np.zeros([bsz[b] for b in bnames])
+    tm_f = np.empty([bsz[b] for b in bnames])
+    for idx in itertools.product(*[range(bsz[b]) for b in bnames]):
+        env = dict(zip(bnames, idx))
+        for n in names:
+            env[n] = int(pdata[n][tuple(env[b] for b in pb[n])])
+        tm_f[idx] = fdata[tuple(env[n] for n, _ in f_inputs)]
+
+    def fail(name, problem, expected, got):
+        w = dict(wit)
+        w["problem"] = problem
+        ctx.fail("input", name, witness=w, expected=expected, got=got, python=py)
+    if not joint_reductions(ctx, "delta", d, names, extras, tm_d, fail, gate_max=True, max_subsets=4):
+        return
+    with np.errstate(all="ignore"):
+        df = d + f
+    if not joint_reductions(ctx, "delta+f", df, names, extras, tm_f, fail, gate_max=True, max_subsets=4):
+        return
+    ctx.case(sample={kk: wit[kk] for kk in ("names", "sizes", "bsz", "pb", "build")},
+             nontrivial_key=("delta-joint", str(wit)))
+
+
+DELTA_JOINT_PY = """
+# replay for C14: n unit-mass Deltas (one per batch element) have total mass n, in one reduce call
+import itertools
+import numpy as np
+from collections import OrderedDict
+from funsor.domains import Bint
+from funsor.tensor import Tensor
+from funsor.terms import Number
+from funsor.delta import Delta
+import funsor.ops as ops
+W = {wit!r}
+names, sizes, bsz, pb = W["names"], W["sizes"], W["bsz"], W["pb"]
+pts = {{n: Tensor(np.array(W["pdata"][n]), OrderedDict((b, Bint[bsz[b]]) for b in pb[n]), sizes[n]) for n in names}}
+if W["build"] == "joint":
+    d = Delta(tuple((n, (pts[n], Number(0.0))) for n in names))
+else:
+    d = Delta(names[0], pts[names[0]])
+    for n in names[1:]:
+        d = d + Delta(n, pts[n])
+with np.errstate(divide="ignore"):
+    f = Tensor(np.log(np.array(W["lin"], dtype=np.float64)), OrderedDict((n, Bint[v]) for n, v in W["f_inputs"]))
+problems = []
+bn = list(bsz)
+for m in range(1, len(bn) + 1):
+    for X in itertools.combinations(bn, m):
+        with np.errstate(all="ignore"):
+            one = d.reduce(ops.logaddexp, frozenset(names) | frozenset(X))
+            two = d.reduce(ops.logaddexp, frozenset(names)).reduce(ops.logaddexp, frozenset(X) & frozenset(
+                d.reduce(ops.logaddexp, frozenset(names)).inputs))
+            n = int(np.prod([bsz[b] for b in X]))
+            got = np.exp(np.asarray(one.data, dtype=np.float64))
+            if not np.allclose(got, n):
+                problems.append("mass of %d unit Deltas over %s: %s" % (n, X, got.tolist()))
+            a = (d + f).reduce(ops.logaddexp, frozenset(names) | frozenset(X))
+            b = (d + f).reduce(ops.logaddexp, frozenset(names)).reduce(ops.logaddexp, frozenset(X))
+            if not np.allclose(np.exp(np.asarray(a.data)), np.exp(np.asarray(b.align(tuple(a.inputs)).data
+                               if a.inputs else b.data))):
+                problems.append("(Delta+f) over %s: one call %s, two steps %s" % (X, a, b))
+print("\\n".join(problems[:6]) or "joint reductions agree")
+FAILS = bool(problems)
+"""
+
+
+# --------------------------------------------------------------------------------------
 # Tensor.sample
 # --------------------------------------------------------------------------------------
 
@@ -618,6 +784,10 @@ def check_sample_case(ctx, c, use_driver=True, gate_model=False):
         if not np.allclose(np.exp(t1), np.exp(t0), rtol=1e-9, atol=0):
             bad("C14.sample-mass-reduce", "sample.reduce(logaddexp, vars) != original.reduce(logaddexp, vars)",
                 expected=str(np.exp(t0).tolist()), got=str(np.exp(t1).tolist()))
+            return
+        if d["order"] and not joint_reductions(
+                ctx, "tensor", s, c["sampled"], d["order"], t1,
+                lambda nm, prob, exp_, got_: bad(nm, prob, expected=exp_, got=got_), gate_max=True):
             return
     else:
         ctx.count("sample:reduce-lazy")
@@ -1422,6 +1592,8 @@ def delta_streams(ctx, use_driver=True):
         delta_reduce_case(ctx, use_driver=use_driver)
     for _ in range(150 if ctx.tier == "quick" else 1500):
         delta_multi_case(ctx, use_driver=use_driver)
+    for _ in range(80 if ctx.tier == "quick" else 1000):
+        delta_joint_case(ctx)
 
 
 # --------------------------------------------------------------------------------------
@@ -1620,6 +1792,13 @@ def check_gauss_case(ctx, c):
                              got=str(t1.tolist()))
                     return
                 ctx.count("gauss:mass-checked")
+
+                def gfail(nm, prob, exp_, got_):
+                    w = dict(wit)
+                    w["problem"] = prob
+                    ctx.fail("input", nm, witness=w, python=gpy, expected=exp_, got=got_)
+                if order and not joint_reductions(ctx, "gaussian", s0, c["sampled"], order, t1, gfail):
+                    return
         except DECLINE as e:
             ctx.count(f"gauss:reduce-declined:{type(e).__name__}")
     ctx.case(sample=wit, nontrivial_key=("gauss", str(wit)) if da >= 2 or b_idx else None)
@@ -1802,6 +1981,12 @@ def check_mixture_case(ctx, c):
         w["problem"] = (f"mass of the sample over the sampled variables {sorted(S)} (reals integrated), per particle and per "
                         f"value of the un-sampled integer inputs {free}")
         ctx.fail("input", "C14.mixture-mass", witness=w, expected=str(want.tolist()), got=str(tm.tolist()), python=py)
+        return
+    def mfail(nm, prob, exp_, got_):
+        w = dict(wit)
+        w["problem"] = prob
+        ctx.fail("input", nm, witness=w, python=py, expected=exp_, got=got_)
+    if order and not joint_reductions(ctx, "mixture", smp, red, order, tm, mfail, max_subsets=4):
         return
     # support of the sampled discrete variables that the Tensor sees
     try:
@@ -2077,6 +2262,13 @@ def check_mc_case(ctx, c):
                 ctx.fail("input", "C14.mc-mass" if fk != "holes" else "C14.mc-support", witness=w,
                          expected=str(want.tolist()), got=str(tab.tolist()), python=py)
                 return
+        if fk == "approx" and order and not np.isnan(tab).any() and (tab > 0).all():
+            def afail(nm, prob, exp_, got_, w=w):
+                w = dict(w)
+                w["problem"] = f"call {t}: " + prob
+                ctx.fail("input", nm, witness=w, python=py, expected=exp_, got=got_)
+            if not joint_reductions(ctx, "mc-approx", r, S, order, np.log(tab), afail, max_subsets=3):
+                return
         # history-independence: a fresh instance given the same random state returns the same value
         try:
             rf = one_call(MonteCarlo(**si), t, S, fk)
@@ -2351,6 +2543,15 @@ def check_pre_case(ctx, c):
                              + ("  = weights + log-normaliser (model = guide)" if c["model"] == "same" else ""))
             ctx.fail("input", "C14.pre-mass", witness=w_, expected=str(want.tolist()), got=str(tm.tolist()), python=py)
             return
+    noise, xs, tm = trials[-1]
+    if tm is not None and all_order:
+        def pfail(nm, prob, exp_, got_):
+            w_ = dict(wit)
+            w_["problem"] = prob
+            ctx.fail("input", nm, witness=w_, python=py, expected=exp_, got=got_)
+        post = lambda r_: r_(**{k: v for k, v in {aux_name: Tensor(noise), **ysubs}.items() if k in r_.inputs})
+        if not joint_reductions(ctx, "precondition", q, avars, all_order, tm, pfail, post=post, max_subsets=3):
+            return
     if fwd is not None:
         tf = table(fwd, all_order)
         want = np.empty([k for _, k in all_order])
@@ -2429,7 +2630,11 @@ def correspond(ctx):
         "only), model = guide or a different mixture / Gaussian / guide+Tensor, 1-2 real inputs (scalar, vector), all or a "
         "strict subset approximated, via approximate() and via forward_backward; gates: one auxiliary noise input of the "
         "documented shape, Delta point affine in the noise with the (conditional) mean / covariance, mass per batch "
-        "element and noise value = log int exp g' + model(x*) - g'(x*) in closed form.  Non-trivial = a row with >= 2 positive cells (sample), domain size >= 2 "
+        "element and noise value = log int exp g' + model(x*) - g'(x*) in closed form.  Joint reductions: every "
+        "sample-producing stream also reduces the sample over its sampled variables AND subsets of its particle / batch "
+        "inputs in ONE call (logaddexp: masses add up; max) against brute force over the per-slice masses; direct Deltas "
+        "binding 2-3 names whose points share a particle input: n unit Deltas have mass n, (Delta+f) gives sum of f at "
+        "the points.  Non-trivial = a row with >= 2 positive cells (sample), domain size >= 2 "
         "(Delta), >= 2 sampled dimensions or a conditioning block (Gaussian); distinct by full case content.")
     radix_box(ctx)
     sample_streams(ctx)
@@ -2479,6 +2684,7 @@ def search(ctx, broken):
         delta_eval_case(ctx, gen_delta_case(rng), use_driver=False)
         delta_reduce_case(ctx, use_driver=False)
         delta_multi_case(ctx, use_driver=False)
+        delta_joint_case(ctx)
         if found():
             return
     for _ in range(600):
